@@ -2,7 +2,7 @@
 """C18 -- connect() and sense() honour their documented contract (structural clauses)."""
 import ast
 
-from ..model import norm, head, walk_no_nested, AnalysisError, FuncInfo, enclosing_stmt, ancestors
+from ..model import norm, head, walk_no_nested, AnalysisError, FuncInfo, enclosing_stmt, ancestors, live
 from ..cfg import cfg_of
 from ..q import (find, match, const, try_const, only_via, tests, stmt_nodes, one, fmt, cfg_node_for, calls)
 from ..core import key
@@ -113,12 +113,12 @@ def rule_returns(report, prog):
     tr = [x for x in f.node.body if isinstance(x, ast.Try) and any(isinstance(y, ast.While) for y in x.body)]
     okk = False
     if len(tr) == 1:
-        hm = {norm(h.type): [norm(s) for s in h.body if isinstance(s, ast.Return)] for h in tr[0].handlers if h.type is not None}
+        hm = {norm(h.type): [norm(s) for s in live(h.body) if isinstance(s, ast.Return)] for h in tr[0].handlers if h.type is not None}
         okk = hm == {'IOError': ['return False'], 'UnsupportedTargetError': ['return False'], 'KeyboardInterrupt': ['return False']}
     report.check(okk, 'C18-R2', key(f.qname, 'False for IOError / UnsupportedTargetError / KeyboardInterrupt'), f.loc(),
                  'exception boundary of connect() changed')
     rs = [i for i in ast.walk(f.node) if isinstance(i, ast.If) and norm(i.test) == 'bool(result) is True']
-    okk = len(rs) == 3 and all([norm(s) for s in i.body] == ['return result'] for i in rs)
+    okk = len(rs) == 3 and all([norm(s) for s in live(i.body)] == ['return result'] for i in rs)
     report.check(okk, 'C18-R2', key(f.qname, 'a helper result is returned only if it is true'), f.loc(), 'result filtering changed')
     # falls out of the loop -> None: no return after the loop inside the try
     if tr:
@@ -197,7 +197,7 @@ def rule_sense(report, prog):
         report.check(len(outer) == 1 and norm(outer[0].iter) == "range(max(1, options.get('iterations', 1)))", 'C18-R4',
                      key(f.qname, 'iterations option bounds the search'), f.loc(), 'iteration loop changed')
     # dispatch by technology
-    disp = {norm(i.test): [norm(s) for s in i.body] for i in walk_no_nested(f.node) if isinstance(i, ast.If) and ('brty.endswith' in norm(i.test) or 'atr_req' in norm(i.test))}
+    disp = {norm(i.test): [norm(s) for s in live(i.body)] for i in walk_no_nested(f.node) if isinstance(i, ast.If) and ('brty.endswith' in norm(i.test) or 'atr_req' in norm(i.test))}
     want = {'target.atr_req is not None': ['self.target = sense_dep(target)'], "target.brty.endswith('A')": ['self.target = sense_tta(target)'],
             "target.brty.endswith('B')": ['self.target = sense_ttb(target)'], "target.brty.endswith('F')": ['self.target = sense_ttf(target)']}
     report.check(disp == want, 'C18-R4', key(f.qname, 'technology dispatch'), f.loc(), 'sense dispatch changed: %r' % disp)
@@ -257,7 +257,7 @@ def rule_stale(report, prog):
     report.check(writers == {'__init__', 'sense', 'listen'}, 'C18-R5', key(CLF, 'self.target is written by sense/listen only'), 'src/nfc/clf/__init__.py',
                  'self.target is assigned in %s' % sorted(writers))
     f = prog.func(CLF + '.exchange')
-    sel = {norm(i.test): [norm(s) for s in i.body] for i in ast.walk(f.node) if isinstance(i, ast.If) and 'isinstance(self.target' in norm(i.test)}
+    sel = {norm(i.test): [norm(s) for s in live(i.body)] for i in ast.walk(f.node) if isinstance(i, ast.If) and 'isinstance(self.target' in norm(i.test)}
     want = {'isinstance(self.target, RemoteTarget)': ['exchange = self.device.send_cmd_recv_rsp'],
             'isinstance(self.target, LocalTarget)': ['exchange = self.device.send_rsp_recv_cmd']}
     report.check(sel == want, 'C18-R5', key(f.qname, 'direction selected from the class of the captured target'), f.loc(), 'exchange dispatch changed: %r' % sel)
